@@ -287,11 +287,13 @@ def mergeClustersImpl (b : Buf) (start end_ : Nat) : M Buf := do
   let info ← forUp (end_ - start) (fun k a => setCl a (start + k) cluster) b.info
   return { b with info := info }
 
-/-- src: buffer.rs::merge_clusters -/
+/-- src: buffer.rs::merge_clusters — only the two glyph vectors change (the control fields are copied
+    from the argument, which makes that evident to the proofs). -/
 def mergeClusters (b : Buf) (start end_ : Nat) : M Buf := do
   if end_ < start then throw .wrap
   if end_ - start < 2 then return b
-  mergeClustersImpl b start end_
+  let b' ← mergeClustersImpl b start end_
+  return { b with info := b'.info, out := b'.out }
 
 /-- `while start != 0 && out[start-1].cluster == out[start].cluster { start -= 1 }` -/
 def extendStartOut (b : Buf) : (s : Nat) → M Nat
@@ -490,38 +492,77 @@ def isSafeToBreak (m : Machine) (c : Ctx) (cs : CS) (b : Buf) (state cls : Nat) 
       | none => false
       | some ee => !c.isActionable cs ee b
 
-/-- src: aat_layout_morx_table.rs::drive — the `loop { … }`. Returns the buffer and the number of
-    iterations. The recursion is justified by `psi`; the `budget` error is the model's guard for it. -/
-def driveLoop (m : Machine) (c : Ctx) (rf : Array Range) (subFlags : Nat)
-    (b : Buf) (cs : CS) (state : Nat) (lastRange : Option Nat) (steps : Nat) : M (Buf × Nat) := do
+/-- result of one iteration of the `loop { … }` of drive: `break`, or go round again. -/
+inductive Step where
+  | done (b : Buf)
+  | next (b : Buf) (cs : CS) (state : Nat) (lastRange : Option Nat)
+
+/-- `if c.can_advance(&entry) { next_glyph() } else { if max_ops <= 0 { next_glyph() } max_ops -= 1 }` -/
+def advance (canAdvance : Bool) (b : Buf) : M Buf :=
+  if canAdvance then nextGlyph b
+  else if b.maxOps ≤ 0 then do
+    let b ← nextGlyph b
+    pure { b with maxOps := b.maxOps - 1 }
+  else pure { b with maxOps := b.maxOps - 1 }
+
+/-- the safe-to-break bookkeeping before the transition: only its panics are modelled. -/
+def breakCheck (m : Machine) (c : Ctx) (cs : CS) (b : Buf) (state cls : Nat) (e : Entry) : M Unit :=
+  let backtrack := if b.haveOutput then b.outLen else b.idx
+  if !isSafeToBreak m c cs b state cls e && backtrack > 0 && b.idx < b.len then
+    flagsFromOut b (backtrack - 1) (b.idx + 1)
+  else pure ()
+
+/-- `if idx < len { machine.class(cur(0).as_glyph()).unwrap_or(1) } else { END_OF_TEXT }` -/
+def curClass (m : Machine) (b : Buf) : M Nat :=
+  if b.idx < b.len then do let g ← rd b.info b.idx; pure (m.cls g.gid) else pure CLASS_END_OF_TEXT
+
+/-- the part of an iteration after the range block, for a position that is switched on. -/
+def driveMain (m : Machine) (c : Ctx) (b : Buf) (cs : CS) (state : Nat) (lastRange : Option Nat) : M Step := do
+  let cls ← curClass m b
+  match m.entry state cls with
+  | none => pure (.done b)
+  | some e =>
+    breakCheck m c cs b state cls e
+    let (cs', b1) ← c.transition cs e b
+    if b1.idx ≥ b1.len || !b1.successful then pure (.done b1)
+    else do
+      let b2 ← advance (c.canAdvance e) b1
+      pure (.next b2 cs' e.newState lastRange)
+
+/-- src: aat_layout_morx_table.rs::drive — one iteration of the `loop { … }`. -/
+def driveStep (m : Machine) (c : Ctx) (rf : Array Range) (subFlags : Nat)
+    (b : Buf) (cs : CS) (state : Nat) (lastRange : Option Nat) : M Step := do
   let (skip, lastRange') ← rangeBlock rf subFlags b lastRange
-  match skip with
-  | true =>
-    if b.idx == b.len || !b.successful then return (b, steps)
-    let b' ← nextGlyph b
+  if skip then
+    if b.idx == b.len || !b.successful then pure (.done b)
+    else do
+      let b' ← nextGlyph b
+      pure (.next b' cs START_OF_TEXT lastRange')
+  else driveMain m c b cs state lastRange'
+
+/-- src: aat_layout_morx_table.rs::drive — the `loop { … }`. Returns the buffer and the number of
+    iterations. The recursion is justified by `psi` (the code's own budget); `none` is the model's guard
+    for it: it is returned if an iteration does not decrease `psi`. Proved impossible for the in-place
+    subtables (Props/C17: `C17_drive_terminates`), never observed in the correspondence for the others. -/
+def driveLoopO (m : Machine) (c : Ctx) (rf : Array Range) (subFlags : Nat)
+    (b : Buf) (cs : CS) (state : Nat) (lastRange : Option Nat) (steps : Nat) : M (Option (Buf × Nat)) :=
+  match driveStep m c rf subFlags b cs state lastRange with
+  | .error p => .error p
+  | .ok (.done b') => .ok (some (b', steps + 1))
+  | .ok (.next b' cs' state' lastRange') =>
     if h : lexLt (psi b') (psi b) = true then
-      driveLoop m c rf subFlags b' cs START_OF_TEXT lastRange' (steps + 1)
-    else throw .budget
-  | false =>
-    let cls ← if b.idx < b.len then do let g ← rd b.info b.idx; pure (m.cls g.gid)
-              else pure CLASS_END_OF_TEXT
-    match m.entry state cls with
-    | none => return (b, steps)
-    | some e =>
-      let backtrack := if b.haveOutput then b.outLen else b.idx
-      if !isSafeToBreak m c cs b state cls e && backtrack > 0 && b.idx < b.len then
-        flagsFromOut b (backtrack - 1) (b.idx + 1)
-      let (cs', b1) ← c.transition cs e b
-      if b1.idx ≥ b1.len || !b1.successful then return (b1, steps + 1)
-      let b2 ← if c.canAdvance e then nextGlyph b1
-        else do
-          let b2 ← if b1.maxOps ≤ 0 then nextGlyph b1 else pure b1
-          pure { b2 with maxOps := b2.maxOps - 1 }
-      if h : lexLt (psi b2) (psi b) = true then
-        driveLoop m c rf subFlags b2 cs' e.newState lastRange' (steps + 1)
-      else throw .budget
+      driveLoopO m c rf subFlags b' cs' state' lastRange' (steps + 1)
+    else .ok none
 termination_by psi b
-decreasing_by all_goals exact lexLt_lex h
+decreasing_by exact lexLt_lex h
+
+/-- the loop with the guard turned into the model-only error `budget` -/
+def driveLoop (m : Machine) (c : Ctx) (rf : Array Range) (subFlags : Nat)
+    (b : Buf) (cs : CS) (state : Nat) (lastRange : Option Nat) (steps : Nat) : M (Buf × Nat) :=
+  match driveLoopO m c rf subFlags b cs state lastRange steps with
+  | .error p => .error p
+  | .ok none => .error .budget
+  | .ok (some r) => .ok r
 
 /-- src: aat_layout_morx_table.rs::drive -/
 def drive (m : Machine) (c : Ctx) (rf : Array Range) (subFlags : Nat) (b : Buf) : M (Buf × Nat) := do
@@ -581,20 +622,28 @@ def verbParams (verb : Nat) : Nat × Nat × Bool × Bool :=
   let m := rearrMap.getD verb 0
   (min 2 (m >>> 4), min 2 (m &&& 0x0F), (m >>> 4) == 3, (m &&& 0x0F) == 3)
 
-/-- src: RearrangementCtx::transition -/
-def rearrTransition (cs : CS) (e : Entry) (b : Buf) : M (CS × Buf) := do
-  let flags := e.flags
+/-- the two mark updates at the top of RearrangementCtx::transition -/
+def rearrMarks (cs : CS) (flags : Nat) (b : Buf) : CS :=
   let cs := if bit flags REARR_MARK_FIRST then { cs with start := b.idx } else cs
-  let cs := if bit flags REARR_MARK_LAST then { cs with end_ := min (b.idx + 1) b.len } else cs
-  if bit flags REARR_VERB && cs.start < cs.end_ then
-    let (l, r, revL, revR) := verbParams (flags &&& REARR_VERB)
-    if cs.end_ - cs.start ≥ l + r && cs.end_ - cs.start ≤ MAX_CONTEXT_LENGTH then
-      let b ← mergeClusters b cs.start (min (b.idx + 1) b.len)
-      let b ← mergeClusters b cs.start cs.end_
-      let info ← rearrangeCore b.info cs.start cs.end_ l r revL revR
-      return (cs, { b with info := info })
-    return (cs, b)
-  return (cs, b)
+  if bit flags REARR_MARK_LAST then { cs with end_ := min (b.idx + 1) b.len } else cs
+
+/-- the body of `if flags & VERB != 0 && self.start < self.end { … }` -/
+def rearrApply (cs : CS) (verb : Nat) (b : Buf) : M Buf :=
+  let p := verbParams verb
+  if cs.end_ - cs.start ≥ p.1 + p.2.1 && cs.end_ - cs.start ≤ MAX_CONTEXT_LENGTH then do
+    let b ← mergeClusters b cs.start (min (b.idx + 1) b.len)
+    let b ← mergeClusters b cs.start cs.end_
+    let info ← rearrangeCore b.info cs.start cs.end_ p.1 p.2.1 p.2.2.1 p.2.2.2
+    pure { b with info := info }
+  else pure b
+
+/-- src: RearrangementCtx::transition -/
+def rearrTransition (cs : CS) (e : Entry) (b : Buf) : M (CS × Buf) :=
+  let cs := rearrMarks cs e.flags b
+  if bit e.flags REARR_VERB && cs.start < cs.end_ then do
+    let b ← rearrApply cs (e.flags &&& REARR_VERB) b
+    pure (cs, b)
+  else pure (cs, b)
 
 def rearrCtx : Ctx where
   inPlace := true
